@@ -20,9 +20,17 @@ transaction that executed no DDL" is `cache_coherent` / `new_tx_sees_committed_c
 fragments; the `coherence_needs_…` theorems show that each guard of the protocol is necessary (dropping it has
 a concrete failing schedule); `ro_fill_not_atomic_stale` is a FINDING about the code as it is (the read-only
 fill of `NewTx` has no version check: a DDL commit between its two critical sections leaves a stale cache).
+
+Third model (added for seeded change c13-b): ImmuModel/Sql/CatalogClone.lean — the catalog of a read-write
+transaction is a CLONE of the cached catalog, and DDL mutates the clone's per-table maps and slices in place.  The cache
+model above takes "the DDL of a transaction stays private until COMMIT" for granted; here it is a theorem about a heap of
+containers, under the extracted fact that `cloneTable` rebuilds EVERY container-typed field of `Table`
+(`clone_rebuilds_every_container`, `clone_facts_match_code`): `uncommitted_ddl_leaves_cached_catalog_untouched`; a single
+shared container breaks it (`shared_container_leaks_uncommitted_ddl`).
 -/
 import ImmuModel.Sql.Proofs.TxProgMain
 import ImmuModel.Sql.Proofs.CatalogCacheMain
+import ImmuModel.Sql.Proofs.CatalogCloneMain
 import ImmuModel.Gen.C13
 
 namespace ImmuModel.Props.C13
@@ -333,5 +341,87 @@ example :
   decide
 
 end CatalogCache
+
+-- ================================================================ catalog clone (uncommitted DDL stays private)
+
+section CatalogClone
+open ImmuModel.Sql.CatClone ImmuModel.Sql.CatClone.MainAux
+
+/-- **The clone model mirrors the code it was written against** (regenerated from `embedded/sql/catalog.go` by
+`extract/c13.go` at every run): the fields of `Table` / `Index` with their kinds, how the literals `&Table{…}` /
+`&Index{…}` of `cloneTable` initialise each field (`make` = a container of its own, `source.f` = taken from the
+source), the loops that fill the rebuilt containers (columns are copied by value: `nc := *c … &nc`; index objects are
+new: `ni := &Index{…}`), and `Catalog.Clone`.  A new map / slice field of `Table`, a field that is no longer rebuilt, a
+loop that stops copying: this theorem (or the next one) no longer holds. -/
+theorem clone_facts_match_code :
+    Gen.C13.tableFields = ["catalog:ptr", "id:value", "name:value", "cols:slice", "colsByID:map", "colsByName:map", "indexes:slice", "indexesByName:map", "indexesByColID:map", "checkConstraints:map", "primaryIndex:ptr", "autoIncrementPK:value", "maxPK:value", "maxColID:value", "maxIndexID:value", "systemScan:func"] ∧
+    Gen.C13.indexFields = ["table:ptr", "id:value", "unique:value", "cols:slice", "colsByID:map", "predicate:value"] ∧
+    Gen.C13.columnFields = ["table:ptr", "id:value", "colName:value", "colType:value", "maxLen:value", "autoIncrement:value", "notNull:value", "defaultValue:value"] ∧
+    Gen.C13.cloneTableInit = ["id:source.id", "catalog:var.newCatalog", "name:source.name", "autoIncrementPK:source.autoIncrementPK", "maxPK:source.maxPK", "maxColID:source.maxColID", "maxIndexID:source.maxIndexID", "cols:make", "colsByID:make", "colsByName:make", "indexes:make", "indexesByName:make", "indexesByColID:make", "checkConstraints:make"] ∧
+    Gen.C13.cloneIndexInit = ["id:source.id", "table:var.nt", "unique:source.unique", "predicate:source.predicate", "cols:make", "colsByID:make"] ∧
+    Gen.C13.cloneTableLoops = ["for name, cc := range t.checkConstraints { nt.checkConstraints[name] = cc }", "for _, c := range t.cols { nc := *c nc.table = nt nt.cols = append(nt.cols, &nc) nt.colsByID[nc.id] = &nc nt.colsByName[nc.colName] = &nc }", "for _, idx := range t.indexes { ni := &Index{ id: idx.id, table: nt, unique: idx.unique, predicate: idx.predicate, cols: make([]*Column, len(idx.cols)), colsByID: make(map[uint32]*Column, len(idx.colsByID)), } for i, c := range idx.cols { ni.cols[i] = nt.colsByID[c.id] } for id := range idx.colsByID { ni.colsByID[id] = nt.colsByID[id] } nt.indexes = append(nt.indexes, ni) nt.indexesByName[ni.Name()] = ni if idx == t.primaryIndex { nt.primaryIndex = ni } }", "for _, ni := range nt.indexes { for _, c := range ni.cols { nt.indexesByColID[c.id] = append(nt.indexesByColID[c.id], ni) } }"] ∧
+    Gen.C13.catalogCloneBody = ["cp := newCatalog(catlg.enginePrefix)", "cp.maxTableID = catlg.maxTableID", "if len(catlg.tables) > 0 { cp.tables = make([]*Table, 0, len(catlg.tables)) }", "for _, t := range catlg.tables { nt := cloneTable(t, cp) cp.tables = append(cp.tables, nt) cp.tablesByID[nt.id] = nt cp.tablesByName[nt.name] = nt }", "return cp"] :=
+  ⟨rfl, rfl, rfl, rfl, rfl, rfl, rfl⟩
+
+/-- **`cloneTable` gives the clone a container of its own for EVERY map / slice field of `Table` (and of the `Index`
+objects it builds)** — the list of fields and the way each is initialised are extracted from the source tree. -/
+theorem clone_rebuilds_every_container :
+    Gen.C13.tableContainerRebuilt.length = 7 ∧
+    (∀ b, b ∈ flagsOf Gen.C13.tableContainerRebuilt → b = true) ∧
+    (∀ b, b ∈ flagsOf Gen.C13.indexContainerRebuilt → b = true) := by
+  decide
+
+/-- **Uncommitted DDL leaves no trace in the cached catalog** (atomicity and isolation of DDL at the level of the
+catalog VALUE): let a read-write transaction clone the cached catalog `c` (heap `h`, any number of tables, any contents)
+and execute ANY sequence of in-place mutations of the containers of ITS catalog (`ms`: DROP CONSTRAINT, DROP COLUMN,
+CREATE / DROP INDEX, RENAME, …).  Then (1) the transaction started from what the cache shows, (2) the cached catalog —
+which every read-only transaction shares and every other read-write transaction clones WHILE the first one is open —
+still shows what it showed, and (3) so does the clone a later transaction takes: after ROLLBACK / a failed statement /
+a failed COMMIT / a closed session (none of which publishes a catalog, `Sql/CatalogCache.lean`) nothing is left. -/
+theorem uncommitted_ddl_leaves_cached_catalog_untouched (h : Heap) (c : List CatClone.Table) (hwf : WF h c)
+    (hshape : ∀ t, t ∈ c → t.length ≤ Gen.C13.tableContainerRebuilt.length) (ms : List Mut) :
+    let flags := flagsOf Gen.C13.tableContainerRebuilt
+    let tx := cloneCatalog flags h c
+    let h' := applyMuts tx.2 tx.1 ms
+    view tx.1 tx.2 = view h c ∧ view h' c = view h c ∧
+    view (cloneCatalog flags h' c).1 (cloneCatalog flags h' c).2 = view h c := by
+  intro flags tx h'
+  have hall : ∀ b, b ∈ flags → b = true := clone_rebuilds_every_container.2.1
+  have hshape' : ∀ t, t ∈ c → t.length ≤ flags.length := by
+    intro t ht
+    have := hshape t ht
+    simpa [flags, flagsOf] using this
+  have hiso := fresh_clone_isolated flags hall h c hwf hshape' ms
+  refine ⟨cloneCatalog_view flags h c hwf, hiso.1, ?_⟩
+  rw [cloneCatalog_view flags h' c hiso.2]
+  exact hiso.1
+
+/-- **One shared container is enough to break it** (the necessity of the fact above; the behaviour of seeded change
+c13-b): the second container of the table is shared with the source (`checkConstraints: t.checkConstraints`); the
+transaction empties it (`ALTER TABLE … DROP CONSTRAINT`) and is never committed — the cached catalog has lost the entry. -/
+theorem shared_container_leaks_uncommitted_ddl :
+    let h : Heap := { cells := [[1], [7]] }
+    let c : List CatClone.Table := [[0, 1]]
+    let tx := cloneCatalog [true, false] h c
+    let h' := applyMuts tx.2 tx.1 [{ tbl := 0, fld := 1, v := [] }]
+    view h c = [[[1], [7]]] ∧ view h' c = [[[1], []]] ∧
+    view (cloneCatalog [true, false] h' c).1 (cloneCatalog [true, false] h' c).2 = [[[1], []]] := by
+  decide
+
+/-- non-vacuity of `uncommitted_ddl_leaves_cached_catalog_untouched`: a cached catalog with one table of seven
+containers is well formed and has the shape of the code's `Table`; the same DROP CONSTRAINT through a clone that
+rebuilds everything leaves the cached catalog alone. -/
+example :
+    let h : Heap := { cells := [[1], [2], [3], [4], [5], [6], [7]] }
+    let c : List CatClone.Table := [[0, 1, 2, 3, 4, 5, 6]]
+    WF h c ∧ (∀ t, t ∈ c → t.length ≤ Gen.C13.tableContainerRebuilt.length) ∧
+    view (applyMuts (cloneCatalog (flagsOf Gen.C13.tableContainerRebuilt) h c).2
+      (cloneCatalog (flagsOf Gen.C13.tableContainerRebuilt) h c).1 [{ tbl := 0, fld := 6, v := [] }]) c = view h c ∧
+    view (applyMuts (cloneCatalog (flagsOf Gen.C13.tableContainerRebuilt) h c).2
+      (cloneCatalog (flagsOf Gen.C13.tableContainerRebuilt) h c).1 [{ tbl := 0, fld := 6, v := [] }])
+      (cloneCatalog (flagsOf Gen.C13.tableContainerRebuilt) h c).2 = [[[1], [2], [3], [4], [5], [6], []]] := by
+  decide
+
+end CatalogClone
 
 end ImmuModel.Props.C13
